@@ -32,6 +32,8 @@ AVOID = {
 
 def backend_program(backend, seed, idx, avoid_known=True, size="small", extra_profile=None, salt=""):
     prof = dict(profiles.gen_profile(backend))
+    if backend == "demo_gen":
+        prof["write_prob"] = 0.6          # demo_gen renders only methods that write to a DiplomatWrite: give it something to render
     if avoid_known:
         prof.update(AVOID.get(backend, {}))
     if extra_profile:
@@ -224,7 +226,10 @@ def reference_graph_features(prog, rng, keyword_fields=True, namespaces=True, re
                 t.attrs.append('#[diplomat::attr(js, rename = "Js%s")]' % t.name)
             for m in t.methods:
                 if m.name != "make" and rng.random() < 0.15:
-                    m.attrs.append('#[diplomat::attr(%s, rename = "%s")]' % (rng.choice(["*", "cpp", "js"]), rng.choice(["renamed_" + m.name, "new", "delete", "class", "default"])))
+                    # (never the name of one of the type's own fields: a method deliberately renamed onto a field is the user's clash,
+                    # C++ and JS have one member namespace)
+                    taken = {fn for fn, _ in getattr(t, "fields", [])}
+                    m.attrs.append('#[diplomat::attr(%s, rename = "%s")]' % (rng.choice(["*", "cpp", "js"]), rng.choice([n_ for n_ in ["renamed_" + m.name, "new", "delete", "class", "default"] if n_ not in taken])))
 
 
 TRAIT_PRIMS = ["i32", "u8", "u64", "f64", "bool", "i16", "usize"]
@@ -428,7 +433,7 @@ def add_docs(prog, rng, p_item=0.5):
     return n
 
 
-def add_demo_attrs(prog, rng):
+def add_demo_attrs(prog, rng, generate=True):
     """#[diplomat::demo(...)] attributes (only demo_gen reads them): generate on methods, input(label / default_value) on struct fields,
     custom_func on types, default_constructor on opaque constructors."""
     n = 0
@@ -442,15 +447,18 @@ def add_demo_attrs(prog, rng):
                     dv = rng.choice(['"7"', "1000", "2.5", '"true"', '"text with \\"quotes\\""'])      # string, integer and float literals are what the attribute parser accepts
                     t.field_attrs.setdefault(fn, []).append('#[diplomat::demo(input(label = "Field %s (%%)", default_value = %s))]' % (fn, dv))
                     n += 1
+                elif rng.random() < 0.15:
+                    t.field_attrs.setdefault(fn, []).append("#[diplomat::demo(external)]")
+                    n += 1
         for m in t.methods:
             if m.name == "make" and not any("default_constructor" in a for a in m.attrs) and rng.random() < 0.7:
                 m.attrs.append("#[diplomat::demo(default_constructor)]")
                 n += 1
-            elif rng.random() < 0.3:
+            elif generate and rng.random() < 0.3:
                 m.attrs.append("#[diplomat::demo(generate)]")
                 n += 1
             for pn, pt in m.params:
-                if pt[0] in ("prim", "enum", "str", "slice", "struct") and rng.random() < 0.3:
+                if pt[0] in ("prim", "enum", "str", "slice", "struct", "opt", "oref", "strs", "oslice", "ostr") and rng.random() < 0.3:
                     if not hasattr(m, "param_attrs"):
                         m.param_attrs = {}
                     what = rng.choice(['input(label = "Param %s")' % pn, 'input(label = "P %s", default_value = "3")' % pn, "external", 'input(default_value = "0")'])
